@@ -102,6 +102,30 @@ func c06Facts(s *source, e *emitter, rel, goName, lean string, calls ...string) 
 	e.stringList(lean, "returns and property-carrying calls of `"+goName+"` in "+rel, out)
 }
 
+// c06IndexAssigns emits the source of every assignment whose left side is an index expression (map / slice
+// element): what is stored under which key.
+func c06IndexAssigns(s *source, e *emitter, rel, goName, lean string) {
+	fd := s.findFunc(rel, goName)
+	if fd == nil {
+		e.errors = append(e.errors, fmt.Sprintf("function %s not found in %s", goName, rel))
+		e.stringList(lean, "MISSING: "+goName, []string{"MISSING"})
+		return
+	}
+	var out []string
+	ast.Inspect(fd.Body, func(n ast.Node) bool {
+		if as, ok := n.(*ast.AssignStmt); ok {
+			for _, l := range as.Lhs {
+				if _, isIdx := l.(*ast.IndexExpr); isIdx {
+					out = append(out, s.src(as))
+					break
+				}
+			}
+		}
+		return true
+	})
+	e.stringList(lean, "assignments to map / slice elements in `"+goName+"` in "+rel, out)
+}
+
 func init() {
 	register("C06", func(s *source, e *emitter) {
 		const node = "core/stores/cache/cachenode.go"
@@ -151,5 +175,39 @@ func init() {
 		c06Facts(s, e, sqlc, "NewNodeConn", "newNodeConnFacts", "NewNode")
 		c06Facts(s, e, unstable, "Unstable.AroundDuration", "aroundFacts", "Duration", "Float64")
 		c06Facts(s, e, unstable, "NewUnstable", "newUnstableFacts")
+		// round 2: the cluster layer (consistent-hash dispatch per key, DelCtx grouping by node), its
+		// constructors, the shared result of a flight, and the monc call sites of the same cache.Cache
+		const cluster = "core/stores/cache/cache.go"
+		const rds = "core/stores/redis/redis.go"
+		const monc = "core/stores/monc/cachedmodel.go"
+		e.constDef(s, rds, "ClusterType", "redisClusterType")
+		e.constDef(s, rds, "NodeType", "redisNodeType")
+		e.shapeDef(s, cluster, "New", "newShape")
+		e.shapeDef(s, cluster, "cacheCluster.DelCtx", "clusterDelShape")
+		c06Facts(s, e, cluster, "New", "newFacts", "TotalWeights", "NewNode", "MustNewRedis", "NewConsistentHash", "AddWithWeight")
+		c06Facts(s, e, cluster, "cacheCluster.DelCtx", "clusterDelFacts", "Get", "DelCtx", "Add", "Err")
+		c06IndexAssigns(s, e, cluster, "cacheCluster.DelCtx", "clusterDelGroups")
+		c06Facts(s, e, cluster, "cacheCluster.GetCtx", "clusterGetFacts", "Get", "GetCtx")
+		c06Facts(s, e, cluster, "cacheCluster.SetCtx", "clusterSetFacts", "Get", "SetCtx")
+		c06Facts(s, e, cluster, "cacheCluster.SetWithExpireCtx", "clusterSetWithExpireFacts", "Get", "SetWithExpireCtx")
+		c06Facts(s, e, cluster, "cacheCluster.TakeCtx", "clusterTakeFacts", "Get", "TakeCtx")
+		c06Facts(s, e, cluster, "cacheCluster.TakeWithExpireCtx", "clusterTakeWithExpireFacts", "Get", "TakeWithExpireCtx")
+		c06Facts(s, e, sqlc, "NewConn", "newConnFacts", "New")
+		c06Facts(s, e, sqlc, "CachedConn.GetCacheCtx", "getCacheFacts", "GetCtx")
+		c06Facts(s, e, sqlc, "CachedConn.SetCacheCtx", "setCacheFacts", "SetCtx")
+		c06Facts(s, e, sqlc, "CachedConn.SetCacheWithExpireCtx", "setCacheWithExpireFacts", "SetWithExpireCtx")
+		c06Facts(s, e, flight, "flightGroup.DoEx", "doExFacts", "createCall", "makeCall")
+		c06Facts(s, e, flight, "flightGroup.makeCall", "makeCallFacts", "fn", "Done")
+		c06Facts(s, e, flight, "flightGroup.createCall", "createCallFacts", "Wait", "Add")
+		c06Facts(s, e, monc, "NewModel", "moncNewModelFacts", "New")
+		c06Facts(s, e, monc, "NewNodeModel", "moncNewNodeModelFacts", "NewNode")
+		c06Facts(s, e, monc, "Model.DelCache", "moncDelCacheFacts", "DelCtx")
+		c06Facts(s, e, monc, "Model.GetCache", "moncGetCacheFacts", "Get")
+		c06Facts(s, e, monc, "Model.SetCache", "moncSetCacheFacts", "Set")
+		c06Facts(s, e, monc, "Model.FindOne", "moncFindOneFacts", "TakeCtx", "FindOne")
+		for _, w := range []string{"DeleteOne", "FindOneAndDelete", "FindOneAndReplace", "FindOneAndUpdate", "InsertOne",
+			"ReplaceOne", "UpdateByID", "UpdateMany", "UpdateOne"} {
+			c06Facts(s, e, monc, "Model."+w, "monc"+w+"Facts", w, "DelCache")
+		}
 	})
 }
